@@ -266,7 +266,12 @@ where
     where
         FMT: Formatter,
     {
-        let mut tokenizer = Tokenizer::new(command).peekable();
+        // White space may precede the first program message unit (IEEE 488.2 7.6.1.2)
+        let start = command
+            .iter()
+            .position(|c| !c.is_ascii_whitespace() || *c == b'\n')
+            .unwrap_or(command.len());
+        let mut tokenizer = Tokenizer::new(&command[start..]).peekable();
         let res = self.run_tokens(device, context, &mut tokenizer, response);
         if let Err(err) = &res {
             device.handle_error(*err);
